@@ -109,12 +109,8 @@ def seed_part(ck, tier, scripts, expect):
     sims = ["simtub", "simtubc", "simfft", "spde", "gibbs", "simpgs"] if tier == "quick" else \
            ["simtub", "simtubc", "simfft", "spde", "spdec", "gibbs", "simpgs", "simbipgs"]
     maxhist = 2 if tier == "quick" else 3
-    if tier == "thorough":
-        # histories of length 3 over the full catalogue would be > 10^6 scripts: length 3 over the
-        # simulators that differ in their reseeding (profiles), length 2 over everything
-        pass
     cfgp = os.path.join(ck.work, "seed.cfg")
-    sims_h = sims if tier == "quick" else sims
+    sims_h = sims
     open(cfgp, "w").write(SEED_CFG % dict(maxhist=maxhist, s1=s1, s2=s2, sims=", ".join('"%s"' % s for s in sims_h),
                                           bare="FALSE", extra="ACTION_CONSTRAINT Emit"))
     groups = collections.defaultdict(list)
@@ -136,10 +132,6 @@ def seed_part(ck, tier, scripts, expect):
         expect[sid] = {"part": "seed", "hist": e["hist"], "call": call, "stream": e["stream"], "seeded": e["seeded"],
                        "key": key}
 
-    if tier == "thorough":
-        # bound the thorough catalogue: TLC still explores MaxHist = 3 on the model; the emitted
-        # scripts of length 3 are replayed for a seeded sub-sample chosen deterministically
-        pass
     res = vlib.run_tlc("MC_SimSeed", cfgp, workers=min(vlib.NCPU, 6), on_emit=on_emit, timeout=3000)
     if res.violation:
         raise Broken("SimSeed.tla violates its own properties with the transcribed profiles:\n" + res.violation)
@@ -230,7 +222,7 @@ CHECK_DEADLOCK FALSE
 def cond_cfg(ck, name, parts, tier, extra):
     s1, s2 = seeds()
     b = dict(parts=", ".join('"%s"' % p for p in parts), s1=s1, s2=s2, tier=tier, extra=extra,
-             maxnb=3, gn=2 if tier == "quick" else 3, gsweeps=3, casesweeps=10 if tier == "quick" else 40)
+             maxnb=3, gn=2 if tier == "quick" else 3, gsweeps=3, casesweeps=10 if tier == "quick" else 80)
     p = os.path.join(ck.work, name)
     open(p, "w").write(COND_CFG % b)
     return p
@@ -469,16 +461,18 @@ def judge_gibbs(ck, sid, ex, obs):
         it = k - 1                      # the state observed is the one after sweep 'it'
         if it < e["ok_from"]:
             continue                    # documented relaxation of the bounds during the burn-in
+        bad = None
         for r, col in enumerate(columns(call)):
             for i, b in enumerate(e["bounds"]):
                 v = col[i]
                 lo, up = na(b[0]), na(b[1])
                 nsteps += 1
                 out = v is None or (lo is not None and v < lo / 10.0 - TOL_BOUND * 10) or (up is not None and v > up / 10.0 + TOL_BOUND * 10)
-                if out:
-                    ck.disagree(dict(base, kind="gibbs-bounds", nburn=c["nburn"], ascoded_predicted=it < e["ascoded_ok_from"]),
-                                dict(replay, sweep=it, site=i + 1, rank=r + 1, value=v, lower=lo and lo / 10.0, upper=up and up / 10.0))
-                    return
+                if out and bad is None:
+                    bad = dict(replay, sweep=it, site=i + 1, rank=r + 1, value=v, lower=None if lo is None else lo / 10.0,
+                               upper=None if up is None else up / 10.0)
+        if bad:                         # one disagreement per sweep; later sweeps are still examined
+            ck.disagree(dict(base, kind="gibbs-bounds", nburn=c["nburn"], ascoded_predicted=it < e["ascoded_ok_from"]), bad)
     ck.add("gibbs_site_states_checked", nsteps)
 
 
@@ -618,4 +612,75 @@ def trace_part(ck, tier, td, scripts, expect):
 
 
 def validate_trace(ck, tier, td, scripts, expect):
-    raise Broken("hook events present but trace validation not implemented yet")
+    """TLC (TraceSimCond.tla) judges every recorded hook event; each script's events are preceded by a
+    header carrying what the spec knows about the case (coinciding targets, GRF counts, exactness)."""
+    lines = []
+    events = []          # parallel to lines: (script id, event dict, case expectation)
+    nscripts = 0
+    for sc in scripts:
+        if not sc.get("trace"):
+            continue
+        path = os.path.join(td, sc["id"] + ".ndjson")
+        if not os.path.exists(path):
+            continue
+        ex = expect[sc["id"].split(".")[0]]
+        hdr = {"e": "Script", "sid": sc["id"], "sim": "tgb", "exact": False, "coincide": [], "ngrf": [1, 1], "nbsimu": 1}
+        if ex["part"] == "case":
+            e = ex["e"]
+            c = e["c"]
+            hdr["sim"] = c["sim"]
+            hdr["nbsimu"] = c.get("nbsimu", 1)
+            if c["sim"] == "simtub":
+                hdr["exact"] = c["model"] != "nugsph"
+                hdr["coincide"] = e["coincide"]
+            elif c["sim"] in ("simpgs", "simbipgs"):
+                hdr["ngrf"] = e["ngrf"]
+                hdr["coincide"] = [[x + 5 * y + 1, i + 1] for i, (x, y) in enumerate(e["data"])]
+        evs = []
+        for l in open(path):
+            if any(('"e":"%s"' % k) in l for k in C13_EVENTS):
+                evs.append(json.loads(l))
+        if not evs:
+            continue
+        nscripts += 1
+        lines.append(hdr)
+        events.append((sc["id"], hdr, ex))
+        for ev in evs:
+            lines.append(ev)
+            events.append((sc["id"], ev, ex))
+    tp = os.path.join(ck.work, "trace.ndjson")
+    vlib.write_ndjson(tp, lines)
+    res = vlib.run_tlc("TraceSimCond", "TraceSimCond.cfg", workers=1, env={"TRACE": tp}, timeout=3000, heap="8g")
+    if res.violation or "NOT-ALL-EXAMINED" in res.stdout:
+        raise Broken("TraceSimCond did not examine the whole trace:\n" + (res.violation or res.stdout[-2000:]))
+    kinds = collections.Counter(ev["e"] for _, ev, _ in events)
+    for k in C13_EVENTS:
+        if kinds[k] == 0:
+            raise Broken("vacuous trace validation: no event of type " + k)
+    nrej = 0
+    for r in res.emitted:
+        if r.get("kind") != "trace":
+            continue
+        sid, ev, ex = events[r["idx"] - 1]
+        rec = {"kind": "trace", "ev": r["ev"], "fails": "+".join(sorted(r["fails"]))}
+        if ex["part"] == "case":
+            c = ex["e"]["c"]
+            rec["simulator"] = c["sim"]
+            if "layout" in c:
+                rec["layout"] = c["layout"]
+            if "layout_ok" in ex["e"]:
+                rec["layout_predicted"] = not ex["e"]["layout_ok"]
+        if r["ev"] == "Tgb":
+            rec["ca"], rec["cb"] = ev["ca"], ev["cb"]
+        if r["ev"] == "GibbsStep":
+            rec["nburn"], rec["iter"] = ev["nburn"], ev["iter"]
+        nrej += 1
+        ck.disagree(rec, {"script": next(s for s in scripts if s["id"] == sid), "event": ev, "event_index_in_trace": r["idx"]})
+    ck.cov["hooks_present"] = True
+    ck.cov["trace_events_judged"] = len(lines) - nscripts
+    ck.cov["trace_events_by_type"] = dict(kinds)
+    ck.cov["trace_events_rejected"] = nrej
+    ck.add("traces_validated_against_impl", nscripts)
+    ck.add("states", res.distinct)
+    ck.add("transitions", res.generated)
+    log("[C13] TraceSimCond: %d events of %d scripts judged by TLC in %.1fs, %d rejected" % (len(lines) - nscripts, nscripts, res.wall, nrej))
